@@ -548,13 +548,21 @@ Proof.
     apply okm_bind; [now apply okm_set_clo_env|]. intros _. apply okm_ret.
 Qed.
 
+Lemma ok_raise_if_err n env m : okm n env m -> okm n env (raise_if_err m).
+Proof.
+  intros H. unfold raise_if_err. apply okm_bind; [exact H|]. intros v. destruct v; try apply okm_ret; apply okm_raise.
+Qed.
+
 Lemma ok_call_value n env env' f args kw : okm n env (call_value W R env' f args kw).
-Proof. unfold call_value, tyerr. destruct f; try apply ok_call_clo; try apply ok_call_builtin; go2. Qed.
+Proof.
+  unfold call_value, tyerr. destruct f; try apply ok_call_clo; try (apply ok_raise_if_err; apply ok_call_builtin); go2.
+Qed.
 
 Lemma ok_call_prop n env env' obj nm args kw : okm n env (call_prop W R env' obj nm args kw).
 Proof.
   unfold call_prop. apply okm_bind; [apply okm_get_st|]. intros st.
-  destruct (find_prop W st obj nm) as [[]|]; try apply okm_ret; try apply ok_call_clo; try apply ok_call_builtin.
+  destruct (find_prop W st obj nm) as [[]|]; try apply okm_ret; try apply ok_call_clo;
+    try (apply ok_raise_if_err; apply ok_call_builtin).
 Qed.
 
 (* ---- expressions (same env: the sub-expressions run in the current frame) ----------------- *)
